@@ -239,19 +239,25 @@ def led__arrow_operator(self: XPathToken, left: XPathToken) -> XPathToken:
     if next_token.symbol == '$':
         self[:] = left, self.parser.expression(80)
     elif isinstance(next_token, ProxyToken):
+        # The proxy resolves the function looking at the token that follows it
+        self.parser.advance()
         self.parser.parse_arguments = False
         try:
             self[:] = left, next_token.nud()
         finally:
             self.parser.parse_arguments = True
-        self.parser.advance()
     elif isinstance(next_token, XPathFunction):
         self[:] = left, next_token
         if next_token.label == 'kind test':
             raise next_token.wrong_syntax()
         self.parser.advance()  # Skip static evaluation of function arguments
+    elif next_token.symbol == '(':
+        # A parenthesized expression that returns the function: parsed as a
+        # whole (the calls that it contains have their arguments)
+        self.parser.advance()
+        self[:] = left, next_token.nud()
     else:
-        next_token.expected('(name)', ':', 'Q{', '(')
+        next_token.expected('(name)', ':', 'Q{')
         self.parser.parse_arguments = False
         try:
             self[:] = left, self.parser.expression(80)
